@@ -16,6 +16,7 @@ import (
 	ctlpkg "github.com/quay/claircore/internal/matcher"
 	"github.com/quay/claircore/libvuln/driver"
 	"github.com/quay/claircore/nodejs"
+	"github.com/quay/claircore/rhel"
 	"github.com/quay/claircore/rhel/rhcc"
 	"github.com/quay/claircore/verifharness/internal/hx"
 )
@@ -262,4 +263,187 @@ func (e *env) ctlOps(rounds int) {
 			}
 		}
 	}
+}
+
+// ---- one package in several IndexRecords ----
+
+// mergedStore answers like the postgres store: per package ID one merged,
+// de-duplicated list, whichever record of the package produced the hit.
+type mergedStore struct {
+	vuln      *claircore.Vulnerability
+	sawFilter bool
+}
+
+func (s *mergedStore) Get(_ context.Context, recs []*claircore.IndexRecord, opts datastore.GetOpts) (map[string][]*claircore.Vulnerability, error) {
+	s.sawFilter = opts.VersionFiltering
+	out := map[string][]*claircore.Vulnerability{}
+	for _, rec := range recs {
+		if _, ok := out[rec.Package.ID]; !ok {
+			out[rec.Package.ID] = []*claircore.Vulnerability{}
+		}
+		if (!opts.VersionFiltering || dbHit(s.vuln, rec)) && len(out[rec.Package.ID]) == 0 {
+			out[rec.Package.ID] = append(out[rec.Package.ID], s.vuln)
+		}
+	}
+	return out, nil
+}
+
+var rhelRecordCPEs = []string{
+	"cpe:/o:redhat:enterprise_linux:8::baseos",
+	"cpe:/a:redhat:enterprise_linux:8::appstream",
+	"cpe:/a:redhat:enterprise_linux:8::crb",
+	"cpe:/o:redhat:enterprise_linux:9::baseos",
+	"cpe:/a:redhat:openshift:4.13::el8",
+}
+
+var rhelAdvisoryCPEs = []string{
+	"cpe:/a:redhat:enterprise_linux:8::appstream",
+	"cpe:/o:redhat:enterprise_linux:8::baseos",
+	"cpe:/a:redhat:enterprise_linux:8",
+	"cpe:/a:redhat:openshift:4",
+	"cpe:/o:redhat:enterprise_linux:9::baseos",
+	"not a cpe",
+}
+
+// multiRecordOps: the same package (one Package.ID) listed in several
+// IndexRecords that differ in repository / distribution, and one advisory.
+// The advisory must be listed once for every record it applies to — in
+// particular it must be reported when it applies to a later record only.
+func (e *env) multiRecordOps(rounds int) {
+	r, rnd := e.r, e.rnd
+	type mm struct {
+		name string
+		m    driver.Matcher
+	}
+	ms := []mm{{"rhel", &rhel.Matcher{}}, {"rhel", &rhel.Matcher{}}, {"rhel", &rhel.Matcher{}}, {"aws", &aws.Matcher{}}, {"rhcc", rhcc.Matcher}, {"gobin", &gobin.Matcher{}}}
+	for c := 0; c < rounds && !r.Stop(); c++ {
+		chain := e.rpmChain(4)
+		nchain := e.nvChain(4)
+		for _, cm := range ms {
+			for k := 0; k < 6 && !r.Stop(); k++ {
+				pe, fe := chain[rnd.Intn(len(chain))], chain[rnd.Intn(len(chain))]
+				ne, lo, up := nchain[rnd.Intn(len(nchain))], nchain[rnd.Intn(len(nchain))], nchain[rnd.Intn(len(nchain))]
+				if rnd.Chance(2, 3) && pe.rank >= fe.rank {
+					pe, fe = chain[0], chain[len(chain)-1] // mostly a package that is below the fix
+				}
+				if rnd.Chance(2, 3) {
+					lo, ne, up = nchain[0], nchain[0], nchain[len(nchain)-1]
+				}
+				pa, va, op := e.genArch()
+				if rnd.Chance(1, 2) {
+					va = "" // no architecture constraint
+				}
+				p := pkg{pe.spell, pa}
+				a := advisory{fixed: fe.spell, pkgArch: va, op: op}
+				pk := &claircore.Package{ID: "7", Name: "pkg", Version: p.version, Arch: p.arch, NormalizedVersion: ne.v}
+				v := &claircore.Vulnerability{ID: "1", Name: "CVE-0", FixedInVersion: a.fixed, ArchOperation: a.op,
+					Package: &claircore.Package{Name: "pkg", Arch: a.pkgArch}, Range: &claircore.Range{Lower: lo.v, Upper: up.v}}
+				n := 2 + rnd.Intn(3)
+				var recs []*claircore.IndexRecord
+				var gates []string
+				passes := 0
+				switch cm.name {
+				case "rhel":
+					vname := rhelAdvisoryCPEs[rnd.Intn(len(rhelAdvisoryCPEs))]
+					key := rhelRepositoryKey
+					if rnd.Chance(1, 12) {
+						key = "other-key"
+					}
+					v.Repo = &claircore.Repository{Name: vname, Key: key}
+					perm := rnd.Intn(len(rhelRecordCPEs))
+					for i := 0; i < n; i++ {
+						cpeStr := rhelRecordCPEs[(perm+i)%len(rhelRecordCPEs)]
+						rc := mkRhelCase(false, false, key, vname, cpeStr)
+						recs = append(recs, &claircore.IndexRecord{Package: pk, Repository: rc.recRepo})
+						gates = append(gates, rc.bits)
+						if rc.pass() {
+							passes++
+						}
+					}
+				case "aws":
+					for i := 0; i < n; i++ {
+						recs = append(recs, &claircore.IndexRecord{Package: pk, Distribution: &claircore.Distribution{DID: aws.ID, VersionID: itoa(i + 1)}})
+						gates = append(gates, "-")
+					}
+					passes = n
+				case "rhcc":
+					for i := 0; i < n; i++ {
+						cp := rhcc.GoldRepo
+						cp.ID = itoa(i + 1)
+						recs = append(recs, &claircore.IndexRecord{Package: pk, Repository: &cp})
+						gates = append(gates, "-")
+					}
+					passes = n
+				case "gobin":
+					for i := 0; i < n; i++ {
+						recs = append(recs, &claircore.IndexRecord{Package: pk, Repository: &claircore.Repository{ID: itoa(i + 1), Name: "go", URI: "https://pkg.go.dev/"}})
+						gates = append(gates, "-")
+					}
+				}
+				ok := true
+				for _, rec := range recs {
+					if !cm.m.Filter(rec) {
+						r.Fail("", fmt.Sprintf("ctlm: %s.Filter rejects the record built for it", cm.name))
+						ok = false
+					}
+				}
+				if !ok {
+					continue
+				}
+				// Vulnerable (rhel) writes vuln.Repo.CPE: hand the controller a private copy per run
+				st := &mergedStore{vuln: v}
+				got := timed(10*time.Second, func() string {
+					res, err := ctlpkg.NewController(cm.m, st).Match(context.Background(), recs)
+					if err != nil {
+						return "err"
+					}
+					cnt := 0
+					for _, x := range res[pk.ID] {
+						if x == v {
+							cnt++
+						}
+					}
+					return fmt.Sprint(cnt)
+				})
+				vf, isVF := cm.m.(driver.VersionFilter)
+				auth := isVF && vf.VersionAuthoritative()
+				line := fmt.Sprintf("ctlm %s %s set %s %s %s ", b2s(isVF), b2s(auth), nverWords(&lo.v), nverWords(&up.v), nverWords(&ne.v)) +
+					strings.TrimPrefix(vulnLine(cm.name, p, a, nil), "vuln ") + " " + strings.Join(gates, ",")
+				r.Op(line, got, true)
+				r.Count("ctlm:" + cm.name + ":records=" + itoa(n) + ":listed=" + got)
+				// the statement: listed once per record the advisory applies to
+				below := pe.rank < fe.rank
+				inRange := lo.rank <= ne.rank && ne.rank < up.rank
+				want := 0
+				switch cm.name {
+				case "rhel", "aws":
+					if below && archExpected(a.op, p.arch, a.pkgArch) {
+						want = passes
+					}
+				case "rhcc":
+					if below && inRange {
+						want = passes
+					}
+				case "gobin":
+					if inRange {
+						want = 1
+					}
+				}
+				if a.fixed == "" {
+					continue // an empty spelling makes this a no-fix advisory: compared with the model only
+				}
+				if got != fmt.Sprint(want) {
+					r.Fail("", fmt.Sprintf("%s: package %q (arch %q, normalized %v) listed in %d records %v; advisory fixed=%q arch=%q op=%d range [%v,%v) repo=%v: listed %s times, expected %d (once per record it applies to)",
+						cm.name, p.version, p.arch, ne.v.V, n, gates, a.fixed, a.pkgArch, uint(a.op), lo.v.V, up.v.V, repoName(v.Repo), got, want))
+				}
+			}
+		}
+	}
+}
+
+func repoName(r *claircore.Repository) string {
+	if r == nil {
+		return "-"
+	}
+	return r.Name
 }
